@@ -19,7 +19,7 @@ class C13(PropertyCheck):
         return [Case(fsgen.expand_corpus_line(c.line), "corpus") for c in PropertyCheck.corpus(self)]
 
     def generate(self, rng, tier):
-        n = 3000 if tier == "quick" else 30000
+        n = 3000 if tier == "quick" else 15000
         return fsgen.gen_cases(rng, tier, "c13", n, "listing-histories")
 
     def nontrivial(self, case, impl_out):
